@@ -24,7 +24,7 @@ func init() { drivers["c05"] = runC05 }
 
 type chunkReader struct {
 	b     []byte
-	plan  []int // chunk sizes; 0 = a read that returns no bytes; after the plan: the rest in one piece
+	plan  []int // chunk sizes; 0 = a read that returns no bytes; -1 = the rest together with io.EOF (as io.Reader allows); after the plan: the rest in one piece
 	pos   int
 	step  int
 	reads int
@@ -36,9 +36,15 @@ func (r *chunkReader) Read(p []byte) (int, error) {
 		return 0, io.EOF
 	}
 	n := len(r.b) - r.pos
+	withEOF := false
 	if r.step < len(r.plan) {
 		n = r.plan[r.step]
-		r.step++
+		if n < 0 {
+			// stays at this step until everything has been delivered (the caller's buffer may be small)
+			n, withEOF = len(r.b)-r.pos, true
+		} else {
+			r.step++
+		}
 		if n > len(r.b)-r.pos {
 			n = len(r.b) - r.pos
 		}
@@ -48,6 +54,9 @@ func (r *chunkReader) Read(p []byte) (int, error) {
 	}
 	copy(p, r.b[r.pos:r.pos+n])
 	r.pos += n
+	if withEOF && r.pos == len(r.b) {
+		return n, io.EOF
+	}
 	return n, nil
 }
 
@@ -259,6 +268,9 @@ func runC05(a Args) tr.Summary {
 						}
 						plans = append(plans, p)
 					}
+					// the last bytes arrive together with io.EOF (iotest.DataErrReader, HTTP bodies): in one piece,
+					// after a first byte, after half
+					plans = append(plans, []int{-1}, []int{1, -1}, []int{len(b) / 2, -1})
 					for r := 0; r < 4; r++ { // seeded sequences with zero-length reads
 						p := []int{}
 						for x := 0; x < len(b); {
